@@ -217,7 +217,7 @@ pub enum BinExpect {
     AcceptOrRefuse(Sem),
 }
 
-fn col_int_range(coltype: u8, unsigned: bool) -> Option<(i128, i128)> {
+pub fn col_int_range(coltype: u8, unsigned: bool) -> Option<(i128, i128)> {
     let bits = match coltype {
         T_TINY => 8,
         T_SHORT | T_YEAR => 16,
